@@ -60,6 +60,12 @@ def lake_build(targets):
     return rc == 0, out
 
 
+def leanchecker(modules):
+    """independent re-check of the compiled .olean files of the given modules (thorough tier)"""
+    rc, out = sh(['lake', 'env', 'leanchecker'] + list(modules), cwd=LEAN_DIR, timeout=3000)
+    return rc == 0, out
+
+
 def strip_comments(text: str) -> str:
     # remove /- ... -/ (nested not needed) and -- comments
     text = re.sub(r'/-.*?-/', '', text, flags=re.S)
